@@ -34,24 +34,20 @@ FIXED = [
 def run(ctx):
     thorough = ctx.tier == 'thorough'
     exe = tc.build(ctx)
-    cfgs = [('MC_exc2.cfg', '2 racing throwers, tryWait, repeated wait'),
-            ('MC_exc_cancel.cfg', 'thrower cancels a TaskSet; later bodies skipped'),
-            ('MC_ts1.cfg', 'TaskSet: thrower among inline/queued/bulk tasks')]
-    if thorough:
-        cfgs += [('MC_exc.cfg', '2 racing throwers + bulk FQ, tryWait(2), wait, wait'),
-                 ('MC_heavy.cfg', 'kHeavy with a thrower'), ('MC_recursive.cfg', 'recursive scheduling with a thrower')]
-    tc.check_models(ctx, cfgs, WHAT)
+    tc.check_models(ctx, 'MC_c05_thorough.cfg' if thorough else 'MC_c05_quick.cfg', WHAT,
+                    '2 racing throwers + tryWait + repeated wait; thrower cancels a TaskSet; thrower among inline/queued/bulk tasks'
+                    + ('; + bulk FQ, kHeavy, recursion' if thorough else ''))
     rng = random.Random(ctx.seed * 7919 + 5)
     g = tc.Gen(rng)
     n = 6 if thorough else 2
-    r0 = tc.run_scenarios(ctx, exe, ALWAYS, WHAT, 1, ctx.seed + 2, 'deterministic thrower programs')
-    r1 = tc.run_scenarios(ctx, exe, FIXED if thorough else FIXED[ctx.seed % 2::2], WHAT, n, ctx.seed, 'fixed programs')
     scens = [g.single(throws=0.5, cancel=0.15, nested=0.4) for _ in range(60 if thorough else 9)]
-    r2 = tc.run_scenarios(ctx, exe, scens, WHAT, n, ctx.seed + 1, 'random programs with throwers')
-    ctx.cov['executions'] = {'deterministic': r0['executions'], 'fixed': r1['executions'], 'random': r2['executions']}
+    r = tc.run_scenarios(ctx, exe, [
+        ('deterministic thrower programs', ALWAYS, 1),
+        ('fixed programs', FIXED if thorough else FIXED[ctx.seed % 2::2], n),
+        ('random programs with throwers', scens, n)], WHAT, ctx.seed)
     ctx.sample({'programs': scens[:5]})
-    if r1['traces']:
-        ctx.sample_trace(r1['traces'][0], 14, skip=40)
+    if r['traces']:
+        ctx.sample_trace(r['traces'][0], 14, skip=40)
     ctx.assumptions += tc.ASSUME + ['one thread at a time calls wait()/tryWait() on a set (concurrent waiters race on exception_ - outside the documented use)',
                                     'a functor run inline by schedule() propagates its exception to the scheduling caller (documented); '
                                     'exceptions that lose the guard CAS are dropped (documented: only the first is kept)']
